@@ -82,6 +82,42 @@ def gen(rng, tier):
     for n in range(0, 13):
         for v in ([b"\x00" * n, b"\xff" * n, rbytes(rng, n)] + [b"\xff" * k + rbytes(rng, n - k) for k in range(1, n)]):
             cs.append(Case("increment %s" % hx(v), cls="increment/len=%d" % n))
+    # ---------------- HMAC-SHA-512-256, SHA-512, SipHash: every length
+    for n in lens:
+        style = n % 3
+        msg = rbytes(rng, n) if style else b"\xff" * n
+        cs.append(Case("auth %s %s" % (hx(rbytes(rng, 32)), hx(msg)), cls="auth/len%%128=%d" % (n % 128)))
+        cs.append(Case("sha512 %s" % hx(msg), cls="sha512/len%%128=%d" % (n % 128)))
+        cs.append(Case("shorthash %s %s" % (hx(rbytes(rng, 16)), hx(msg)), cls="shorthash/len%%8=%d" % (n % 8)))
+    for n in ([0, 1, 127, 128, 129] if tier == "quick" else list(range(0, 140))):
+        key, msg = rbytes(rng, 32), rbytes(rng, n)
+        mac = refs.hmac512256(key, msg)
+        cs.append(Case("auth_verify %s %s %s" % (hx(key), hx(msg), hx(mac)), cls="auth_verify/good", expect="ok"))
+        for f in flips(mac):
+            cs.append(Case("auth_verify %s %s %s" % (hx(key), hx(msg), hx(f)), cls="auth_verify/flip", expect="err"))
+    # ---------------- BLAKE2b generic hash: every digest length × key lengths × message lengths
+    keylens = [0, 16, 17, 31, 32, 33, 48, 63, 64]
+    msglens = [0, 1, 63, 64, 127, 128, 129, 255, 256, 257, 300]
+    for outlen in range(16, 65):
+        for kl in (keylens if tier == "quick" else [0] + list(range(16, 65))):
+            for ml in (msglens if (tier == "thorough" or (outlen + kl) % 3 == 0) else [msglens[(outlen + kl) % len(msglens)]]):
+                cs.append(Case("generichash %d %s %s" % (outlen, hx(rbytes(rng, kl)), hx(rbytes(rng, ml))), cls="generichash/keyed=%d" % (kl > 0)))
+    for n in lens:
+        kl = [0, 32, 64, 16][n % 4]
+        msg = rbytes(rng, n) if n % 3 else b"\xff" * n
+        cs.append(Case("generichash %d %s %s" % (16 + n % 49, hx(rbytes(rng, kl)), hx(msg)), cls="generichash/len%%128=%d" % (n % 128)))
+    for outlen in list(range(0, 16)) + list(range(65, 72)):     # rejected digest lengths
+        cs.append(Case("generichash %d - %s" % (outlen, hx(rbytes(rng, 5))), cls="generichash/bad-outlen", expect="err"))
+    for kl in list(range(1, 16)) + [65, 66, 100]:             # rejected key lengths
+        cs.append(Case("generichash 32 %s %s" % (hx(rbytes(rng, kl)), hx(rbytes(rng, 5))), cls="generichash/bad-keylen", expect="err"))
+    # ---------------- HSalsa20 / HChaCha20
+    for i in range(200 if tier == "quick" else 3000):
+        k, inp = rbytes(rng, 32), rbytes(rng, 16)
+        if i % 10 == 0:
+            k, inp = b"\xff" * 32, b"\xff" * 16
+        cs.append(Case("hsalsa20 %s %s" % (hx(k), hx(inp)), cls="hsalsa20"))
+        cs.append(Case("hsalsa20 %s %s %s" % (hx(k), hx(inp), hx(rbytes(rng, 16))), cls="hsalsa20/const"))
+        cs.append(Case("hchacha20 %s %s" % (hx(k), hx(inp)), cls="hchacha20"))
     return cs
 
 
